@@ -511,3 +511,118 @@ func SimplifyGrounds(grounds []string) []string {
 	sort.Strings(out)
 	return out
 }
+
+// PathSummariesR is PathSummaries with a phi resolver handed to eventOf: resolve(v) replaces a phi by the value it
+// carries on the path being summarised (the edge from the predecessor the path came in by), repeatedly.
+func PathSummariesR(fn *ssa.Function, limit int, eventOf func(in ssa.Instruction, resolve func(ssa.Value) ssa.Value) string) (out []string, ok bool) {
+	if len(fn.Blocks) == 0 {
+		return nil, false
+	}
+	set := map[string]bool{}
+	onPath := map[*ssa.BasicBlock]bool{}
+	var path []*ssa.BasicBlock
+	count := 0
+	ok = true
+	resolve := func(v ssa.Value) ssa.Value {
+		for d := 0; d < 8; d++ {
+			phi, isPhi := v.(*ssa.Phi)
+			if !isPhi {
+				return v
+			}
+			idx := -1
+			for i := len(path) - 1; i >= 0; i-- {
+				if path[i] == phi.Block() {
+					idx = i
+					break
+				}
+			}
+			if idx <= 0 {
+				return v
+			}
+			pred := path[idx-1]
+			found := false
+			for i, p := range phi.Block().Preds {
+				if p == pred && i < len(phi.Edges) {
+					v = phi.Edges[i]
+					found = true
+					break
+				}
+			}
+			if !found {
+				return v
+			}
+		}
+		return v
+	}
+	var walk func(b, pred *ssa.BasicBlock, conds, events []string)
+	walk = func(b, pred *ssa.BasicBlock, conds, events []string) {
+		if onPath[b] || !ok || len(b.Instrs) == 0 {
+			return
+		}
+		path = append(path, b)
+		defer func() { path = path[:len(path)-1] }()
+		for _, in := range b.Instrs {
+			if e := eventOf(in, resolve); e != "" {
+				events = append(append([]string{}, events...), e)
+			}
+		}
+		last := b.Instrs[len(b.Instrs)-1]
+		switch t := last.(type) {
+		case *ssa.Return:
+			count++
+			if count > limit {
+				ok = false
+				return
+			}
+			m := map[string]bool{}
+			for _, c := range conds {
+				m[c] = true
+			}
+			ks := make([]string, 0, len(m))
+			for k := range m {
+				ks = append(ks, k)
+			}
+			sort.Strings(ks)
+			set[strings.Join(ks, " ∧ ")+" ⇒ "+strings.Join(events, " ; ")] = true
+			return
+		case *ssa.Panic:
+			return
+		case *ssa.If:
+			onPath[b] = true
+			cond := t.Cond
+			neg := false
+			for {
+				if u, isNot := cond.(*ssa.UnOp); isNot && u.Op == token.NOT {
+					cond, neg = u.X, !neg
+					continue
+				}
+				break
+			}
+			cond, fixed := resolvePhiCond(cond, b, pred)
+			switch {
+			case fixed >= 0:
+				if (fixed == 1) != neg {
+					walk(b.Succs[0], b, conds, events)
+				} else {
+					walk(b.Succs[1], b, conds, events)
+				}
+			default:
+				walk(b.Succs[0], b, append(append([]string{}, conds...), CondDesc(cond, !neg)), events)
+				walk(b.Succs[1], b, append(append([]string{}, conds...), CondDesc(cond, neg)), events)
+			}
+			onPath[b] = false
+			return
+		}
+		onPath[b] = true
+		for _, s := range b.Succs {
+			walk(s, b, conds, events)
+		}
+		onPath[b] = false
+	}
+	walk(fn.Blocks[0], nil, nil, nil)
+	for k := range set {
+		out = append(out, k)
+	}
+	sort.Strings(out)
+	return out, ok
+}
